@@ -108,6 +108,19 @@ func (m *orderedMap) has(key Value) bool {
 	return entry != nil
 }
 
+// snapshot returns the current entries as key/value pairs. Exporting an entry can run user code (getters) that
+// adds or removes entries; a result that has to be sized and registered before its elements are exported
+// is built from a snapshot.
+func (m *orderedMap) snapshot() [][2]Value {
+	items := make([][2]Value, 0, m.size)
+	for e := m.iterFirst; e != nil; e = e.iterNext {
+		if e.key != nil {
+			items = append(items, [2]Value{e.key, e.value})
+		}
+	}
+	return items
+}
+
 func (iter *orderedMapIter) next() *mapEntry {
 	if iter.m == nil {
 		// closed iterator
